@@ -444,8 +444,17 @@ func (c *Ctx) TagDispatch(pkgs ...string) []core.Ob {
 
 // ------------------------------------------------------------------- T-KIND
 
+// boundKindParams: while a helper body is walked for one particular call, its reflect.Kind-typed
+// parameters that the call gives a constant (integerBits(val, reflect.Uint32)) read as that constant.
+var boundKindParams = map[types.Object]string{}
+
 func reflectKindName(info *types.Info, e ast.Expr) (string, bool) {
 	e = ast.Unparen(e)
+	if id, isId := e.(*ast.Ident); isId {
+		if k, ok := boundKindParams[info.Uses[id]]; ok {
+			return k, true
+		}
+	}
 	sel, ok := e.(*ast.SelectorExpr)
 	if !ok {
 		return "", false
@@ -783,6 +792,38 @@ func (c *Ctx) ReflKind() []core.Ob {
 			aliases := kindAliases(info, scope, valObj)
 			ast.Inspect(node, func(x ast.Node) bool {
 				switch v := x.(type) {
+				case *ast.BlockStmt:
+					// a guard that leaves the function narrows what follows it in the block:
+					// if val.Kind() == k { return ... }; rest
+					cur := kinds
+					narrowed := false
+					for _, st := range v.List {
+						if ifs, ok := st.(*ast.IfStmt); ok && ifs.Else == nil && terminates(ifs.Body.List) {
+							bd := boolDefs(info, scope)
+							if _, elseF, any := kindCond(info, ifs.Cond, valObj, aliases, bd, 0); any {
+								walk(info, valObj, st, cur)
+								cur = elseF(cur)
+								narrowed = true
+								continue
+							}
+						}
+						if narrowed {
+							walk(info, valObj, st, cur)
+						}
+					}
+					if narrowed {
+						// the statements before the first guard were not walked above
+						for _, st := range v.List {
+							if ifs, ok := st.(*ast.IfStmt); ok && ifs.Else == nil && terminates(ifs.Body.List) {
+								bd := boolDefs(info, scope)
+								if _, _, any := kindCond(info, ifs.Cond, valObj, aliases, bd, 0); any {
+									break
+								}
+							}
+							walk(info, valObj, st, kinds)
+						}
+						return false
+					}
 				case *ast.SwitchStmt:
 					// switch val.Kind() { ... } refines
 					if id, isId := ast.Unparen(v.Tag).(*ast.Ident); v.Tag != nil && (switchesOnKindOf(info, v, valObj) || (isId && aliases[info.Uses[id]])) {
@@ -871,10 +912,29 @@ func (c *Ctx) ReflKind() []core.Ob {
 							if pobj == nil {
 								continue
 							}
+							// kind constants handed to the helper's other parameters
+							var bound []types.Object
+							pidx := 0
+							for _, f := range hn.Type.Params.List {
+								for _, nm := range f.Names {
+									if pidx < len(v.Args) && pidx != ai {
+										if kn, isKind := reflectKindName(info, v.Args[pidx]); isKind {
+											if po := hpk.TypesInfo.Defs[nm]; po != nil {
+												boundKindParams[po] = kn
+												bound = append(bound, po)
+											}
+										}
+									}
+									pidx++
+								}
+							}
 							visiting[hd] = true
 							scopeOf[pobj] = hn.Body
 							walk(hpk.TypesInfo, pobj, hn.Body, kinds)
 							visiting[hd] = false
+							for _, po := range bound {
+								delete(boundKindParams, po)
+							}
 						}
 					}
 					sel, ok := v.Fun.(*ast.SelectorExpr)
@@ -1163,6 +1223,12 @@ func (c *Ctx) Endian() []core.Ob {
 		}
 		stores := map[ssa.Value]map[int64]int64{}
 		storePos := map[ssa.Value]token.Pos{}
+		type lowStore struct {
+			idx int64
+			of  ssa.Value
+		}
+		shifted := map[ssa.Value]ssa.Value{}
+		lowByte := map[ssa.Value][]lowStore{}
 		for _, b := range fn.Blocks {
 			for _, in := range b.Instrs {
 				switch x := in.(type) {
@@ -1215,9 +1281,15 @@ func (c *Ctx) Endian() []core.Ob {
 					if bo, ok := v.(*ssa.BinOp); ok && bo.Op == token.SHR {
 						if s, ok := constIntVal(bo.Y); ok && s%8 == 0 {
 							sh = s
+							shifted[ia.X] = stripConv(bo.X)
 						}
 					} else if _, isParam := v.(*ssa.Parameter); isParam && v != x.Val {
 						sh = 0 // byte(n): the low byte
+					} else if cv, isConv := x.Val.(*ssa.Convert); isConv {
+						// byte(n) of a local: the low byte, if the other bytes of this buffer are shifts of the same n
+						if bt, ok := cv.Type().Underlying().(*types.Basic); ok && bt.Kind() == types.Uint8 {
+							lowByte[ia.X] = append(lowByte[ia.X], lowStore{idx, stripConv(cv.X)})
+						}
 					}
 					if sh < 0 {
 						continue
@@ -1227,6 +1299,13 @@ func (c *Ctx) Endian() []core.Ob {
 						storePos[ia.X] = x.Pos()
 					}
 					stores[ia.X][idx] = sh
+				}
+			}
+		}
+		for base, lows := range lowByte {
+			for _, l := range lows {
+				if stores[base] != nil && shifted[base] == l.of {
+					stores[base][l.idx] = 0
 				}
 			}
 		}
